@@ -141,6 +141,40 @@ Theorem completed_survives_full_restart_partial : forall img evs,
 Proof. exact trace_ok_apply_durable_proved. Qed.
 Print Assumptions completed_survives_full_restart_partial.
 
+(* ---- what SaveRaftState must fsync (Tan: internal/tan/db.go db.write / stateSyncChange;
+        Pebble: WriteOptions of internal/logdb/kv/pebble) ---- *)
+
+(* Tan writes every record but fsyncs selectively. A write that changes anything a message can
+   make a claim about (durable term, vote, log entries, snapshot record) is fsynced before
+   SaveRaftState returns. The State fields compared are GENERATED from stateSyncChange
+   ([tan_sync_fields]): dropping Term or Vote there breaks this theorem. *)
+Theorem tan_claim_change_requires_sync : forall d u d' s,
+  tan_inv d -> state_wf u = true -> tan_write d u = (d', s) ->
+  ~ same_claims (td_written d') (td_written d) -> s = true.
+Proof. exact tan_claim_change_requires_sync_proved. Qed.
+Print Assumptions tan_claim_change_requires_sync.
+
+(* power loss after any sequence of acknowledged saves on a Tan store (everything not fsynced
+   is dropped): the surviving image covers exactly the messages the written image covers *)
+Theorem tan_power_loss_keeps_claims : forall img us m,
+  forallb state_wf us = true ->
+  covers (td_synced (tan_run (tan_open img) us)) m = covers (td_written (tan_run (tan_open img) us)) m.
+Proof. exact tan_power_loss_keeps_claims_proved. Qed.
+Print Assumptions tan_power_loss_keeps_claims.
+
+(* faithful to the code: a commit-only State change is NOT fsynced by Tan; the commit index may
+   lag after power loss (no message of the property makes a claim about it) *)
+Theorem tan_commit_only_change_not_synced :
+  exists d u d', tan_inv d /\ state_wf u = true /\ tan_write d u = (d', false) /\
+                 i_commit (td_written d') <> i_commit (td_written d).
+Proof. exact tan_commit_only_not_synced_proved. Qed.
+Print Assumptions tan_commit_only_change_not_synced.
+
+(* Pebble: every write batch of the log store is committed with Sync: true (GENERATED) *)
+Theorem pebble_every_write_synced : pebble_write_sync = true.
+Proof. exact (eq_refl true). Qed.
+Print Assumptions pebble_every_write_synced.
+
 (* ---- non-vacuity ---- *)
 
 Definition ex_vote := mkMsg mt_RequestVoteResp 2 1 5 0 0 0 false [].
@@ -179,4 +213,11 @@ Example trace_ok_examples :
   trace_ok image0 [TPersist ex_u1; TApply 10] = false /\
   trace_ok image0 [TPersist ex_u1; TSend ex_vote; TRecover (mkImg 5 3 6 0 0 [mkEnt 8 5; mkEnt 9 5])] = false /\
   trace_ok image0 [TPersist ex_u1; TSend ex_vote; TRecover (mkImg 5 2 6 0 0 [mkEnt 8 5; mkEnt 9 5])] = true.
+Proof. vm_compute. repeat split; reflexivity. Qed.
+
+(* the vote-only change in a term that is already on disk is a claim change, so it must sync *)
+Example tan_vote_only_change_syncs :
+  snd (tan_write (tan_open (mkImg 5 0 3 0 0 [])) (mkUpd 1 1 (mkHS 5 2 3) [] [] 0 0 [ex_vote] true)) = true /\
+  snd (tan_write (tan_open (mkImg 5 2 3 0 0 [])) (mkUpd 1 1 (mkHS 5 2 4) [] [] 0 0 [] true)) = false /\
+  snd (tan_write (tan_open (mkImg 5 2 3 0 0 [])) (mkUpd 1 1 (mkHS 6 0 3) [] [] 0 0 [] true)) = true.
 Proof. vm_compute. repeat split; reflexivity. Qed.
